@@ -165,7 +165,9 @@ MALFORMED = ["1,,2", ",,", "1--3", "1-2-3", "-5", "5-", "-", ",", ",1", "1,", " 
 
 
 def gen(rng, tier, escalate):
-    big = tier == "thorough" or escalate
+    big = tier == "thorough"
+    # volume: quick 1x, quick + escalation (anchored source changed / an obligation broke) 4x, thorough 13x, thorough + escalation 20x
+    k = {(False, False): 1, (False, True): 4, (True, False): 13, (True, True): 20}[(big, bool(escalate))]
     cases = []
     # (i) exhaustive small bound
     atoms = [[a] for a in range(5)] + [[a, b] for a in range(5) for b in range(5)]
@@ -174,23 +176,23 @@ def gen(rng, tier, escalate):
         cases.append({"kind": "exh1", "text": _render([p], rng, plain=True), "ops": chk})
     for p, q in itertools.product(atoms, atoms):
         cases.append({"kind": "exh2", "text": _render([p, q], rng, plain=True), "ops": chk})
-    for mask in range(1, 1 << (12 if big else 10)):
+    for mask in range(1, 1 << (10 if k == 1 else 12)):
         vals = [i for i in range(12) if mask >> i & 1]
         cases.append({"kind": "subset", "text": ",".join(map(str, vals)), "ops": [["str"], ["list"]]})
     # (ii) random interval lists + call sequences
-    n = 40000 if big else 3000
+    n = 3000 * k
     for i in range(n):
         parts = _parts(rng)
         text = _render(parts, rng, plain=(i % 5 == 0))
         nops = rng.choice([0, 2, 5, 10, 25]) if i % 3 else 25
         cases.append({"kind": "random", "text": text, "ops": _ops(rng, _members(parts), nops), "parts": parts})
     # compress / re-expand: the compressed string of a random range is fed back as a text
-    for i in range(1500 if big else 120):
+    for i in range(120 * k):
         vals = sorted(_members(_parts(rng)))
         cases.append({"kind": "reparse", "text": _compress_ref(vals), "ops": [["str"], ["list"], ["len"]]})
     # (iii) large ranges
     large = []
-    for i in range(32 if big else 5):
+    for i in range(5 + 2 * k):
         a = rng.choice([0, 1, rng.randint(0, 30000)])
         b = rng.choice([70000, 65536, rng.randint(a + 20000, 70000)])
         parts = [[a, b], [rng.randint(0, 70000)], [max(0, b - 10), min(70000, b + 5)]]
@@ -200,7 +202,7 @@ def gen(rng, tier, escalate):
     # (iv) malformed
     for t in MALFORMED:
         cases.append({"kind": "malformed", "text": t, "ops": [["list"], ["str"]]})
-    for i in range(2000 if big else 200):
+    for i in range(200 * k):
         parts = _parts(rng)
         text = _render(parts, rng)
         pos = rng.randint(0, len(text))
@@ -366,7 +368,7 @@ def aux(rng, tier, escalate):
     import ciscoconfparse2  # noqa: F401
     from loguru import logger
     logger.remove()
-    n = 1200 if (tier == "thorough" or escalate) else 300
+    n = 1200 if tier == "thorough" else (600 if escalate else 300)
     cases = []
     for i in range(n):
         parts = _parts(rng)
